@@ -201,6 +201,9 @@ func inSchemalessDomain(ts []sb.Token) bool {
 			case sb.KindLiteral, sb.KindMin, sb.KindMax, sb.KindRef:
 				return false
 			}
+			if hasNaNPayload([]sb.Token{*v.leaf}) {
+				return false // a float token whose payload is a NaN: no marshaller emits it (NaN travels as the NaN kind)
+			}
 			return true
 		}
 		switch v.open {
@@ -385,6 +388,9 @@ func typedMore(dir string, seed int64, tier string, repU *Report, wU *CaseWriter
 		}
 		wU.add(fmt.Sprintf("UnmarshalCase %s %s %s %s %s %s %s", coqOpts(false, false, false), reg, tyS, "(zero "+tyS+")", coqTokens(stream), floatTable(stream), uobs(back, eU)), desc, len(stream) >= 2)
 		tapOracle(repU, target, stream, back, eU, desc)
+		if utapsW != nil {
+			utapsCase(utapsW.report, target, stream, i%8 >= 4, desc)
+		}
 
 		// ---------------- C11: schema-less decoding is lossless ----------------
 		adesc := fmt.Sprintf("any: source=%v stream=[%s]", s, truncate(descTokens(ts), 400))
